@@ -129,7 +129,7 @@ contract("CountMinSketch.clear", contexts=["CountMinSketch"], properties=["C19"]
          loops={0: {"invariant": [("prefix_zero", "all(self._bins[x] == 0 for x in range(0, _i))"),
                                   ("length_kept", "len(self._bins) == old(len(self._bins))")]}})
 
-contract("CountMinSketch.join", contexts=["CountMinSketch"], properties=["C12", "C13", "C16", "C14"],
+contract("CountMinSketch.join", contexts=["CountMinSketch"], properties=["C12", "C13", "C16", "C14", "C02"],
          params={"second": "obj:CountMinSketch"},
          requires=[("receiver_inv", "inv_cms(self)"),
                    ("second_inv", "not isinstance(second, CountMinSketch) or inv_cms(second)")],
